@@ -202,7 +202,8 @@ if isinstance(value, datetime.datetime) and value.tzinfo is None:
 
 def translate_range(ctx, fam, cls, meth, mode, localize=False):
     fn, owner, mod = ctx.fn(cls, meth)
-    name = 'rvn%s_%s' % ('' if mode == 'val' else '_none', owner.__name__)
+    px, rec, OPT = fam.px, fam.rec, fam.opt      # field prefix, record type, bounds that may be None
+    name = '%svn%s_%s' % (fam.prefix, '' if mode == 'val' else '_none', owner.__name__)
     if name in fam.done:
         return name
     if [a.arg for a in fn.args.args] != ['cls', 'value']:
@@ -219,7 +220,6 @@ def translate_range(ctx, fam, cls, meth, mode, localize=False):
     if len(body) != 1 or not isinstance(body[0], ast.Return) or body[0].value is None:
         raise TranslateError('%s.%s: body is not [naive-value rule;] return <expr>' % (owner.__name__, meth))
     expr = body[0].value
-    OPT = ('gt', 'lt')
 
     def bound(n):
         ch = attr_chain(n)
@@ -242,17 +242,17 @@ def translate_range(ctx, fam, cls, meth, mode, localize=False):
                'eq': '(oo_eqb o v %(b)s)', 'ne': '(negb (oo_eqb o v %(b)s))'}[op]
         if b in OPT:
             # compared only where the source has tested `is None` first (that test is a separate conjunct)
-            return '(cmp_opt (fun b => %s) (ra_%s a))' % (rel % {'b': 'b'}, b)
+            return '(cmp_opt (fun b => %s) (%s%s a))' % (rel % {'b': 'b'}, px, b)
         if getattr(cls.Attributes, b) is None:
             raise TranslateError('%s.Attributes.%s is None but is compared without a guard' % (cls.__name__, b))
-        return rel % {'b': '(ra_%s a)' % b}
+        return rel % {'b': '(%s%s a)' % (px, b)}
 
     def is_none(n):
         if _is_value(n):
             return TRUE if mode == 'none' else FALSE
         b = bound(n)
         if b in OPT:
-            return '(is_none (ra_%s a))' % b
+            return '(is_none (%s%s a))' % (px, b)
         if attr_chain(n) == ['cls', 'Attributes', 'values']:
             if cls.Attributes.values is None:
                 raise TranslateError('Attributes.values is None')
@@ -262,7 +262,7 @@ def translate_range(ctx, fam, cls, meth, mode, localize=False):
     def num(n):
         if isinstance(n, ast.Call) and isinstance(n.func, ast.Name) and n.func.id == 'len' and len(n.args) == 1 \
                 and attr_chain(n.args[0]) == ['cls', 'Attributes', 'values']:
-            return '(Fin (Z.of_nat (length (ra_values a))))'
+            return '(Fin (Z.of_nat (length (%svalues a))))' % px
         if isinstance(n, ast.Constant) and isinstance(n.value, int) and not isinstance(n.value, bool):
             return '(Fin (%d))' % n.value
         return None
@@ -278,7 +278,7 @@ def translate_range(ctx, fam, cls, meth, mode, localize=False):
         if _is_value(e) and attr_chain(c) == ['cls', 'Attributes', 'values']:
             if mode == 'none':
                 raise TranslateError('None in values')
-            return '(existsb (oo_eqb o v) (ra_values a))'
+            return '(existsb (oo_eqb o v) (%svalues a))' % px
         raise TranslateError('unsupported membership test')
 
     def leaf(n):
@@ -290,19 +290,19 @@ def translate_range(ctx, fam, cls, meth, mode, localize=False):
             return '(%s o a v)' % pname if mode == 'val' else '(%s a)' % pname
         ch = attr_chain(n)
         if ch in (['cls', 'Attributes', 'nillable'], ['cls', 'Attributes', 'nullable']):
-            return '(ra_nillable a)'
+            return '(%snillable a)' % px
         return None
 
     text = BoolTranslator(leaf, cmp_any, num, is_none, contains).tr(expr)
     if mode == 'val':
         if has_prelude:
-            params = '{V : Type} (o : ord_ops V) (localize : V -> V) (a : rng_attrs V) (v0 : V)'
+            params = '{V : Type} (o : ord_ops V) (localize : V -> V) (a : %s V) (v0 : V)' % rec
             text = 'let v := localize v0 in\n  ' + text
         else:
-            params = '{V : Type} (o : ord_ops V) (a : rng_attrs V) (v : V)'
+            params = '{V : Type} (o : ord_ops V) (a : %s V) (v : V)' % rec
     else:
         # isinstance(None, datetime.datetime) is False: the prelude does nothing for None
-        params = '{V : Type} (a : rng_attrs V)'
+        params = '{V : Type} (a : %s V)' % rec
     fam.defs.append('Definition %s %s : bool :=\n  %s.\n' % (name, params, text))
     fam.done[name] = has_prelude
     return name
@@ -362,6 +362,7 @@ def generate(repo):
     out.append('')
     # ---- ordered values
     rf = Family('r', None, None, None, None)
+    rf.px, rf.rec, rf.opt = 'ra_', 'rng_attrs', ('gt', 'lt')
     dt_val = translate_range(ctx, rf, dtm.DateTime, 'validate_native', 'val')
     dt_none = translate_range(ctx, rf, dtm.DateTime, 'validate_native', 'none')
     if ctx.owner_of(dtm.Date, 'validate_native') is not dtm.DateTime:
@@ -382,4 +383,22 @@ def generate(repo):
         D = C.Attributes
         if D.gt is not None or D.lt is not None or D.ge is None or D.le is None or D.values:
             raise TranslateError('%s: unexpected default range attributes' % cn)
+    # ---- Decimal: all four bounds always hold a value (the defaults are Decimal('-inf') / Decimal('inf'))
+    number = importlib.import_module('spyne.model.primitive.number')
+    if not number.__file__.startswith(repo.rstrip('/') + '/'):
+        raise TranslateError('spyne.model.primitive.number imported from %s' % number.__file__)
+    df = Family('r4', None, None, None, None)
+    df.px, df.rec, df.opt = 'r4_', 'rng4_attrs', ()
+    dv = translate_range(ctx, df, number.Decimal, 'validate_native', 'val')
+    dn = translate_range(ctx, df, number.Decimal, 'validate_native', 'none')
+    if df.done[dv]:
+        raise TranslateError('unexpected statement before the return of Decimal.validate_native')
+    out.append('')
+    out.extend(df.defs)
+    out.append('Definition validate_native_Decimal {V} := @%s V.' % dv)
+    out.append('Definition validate_native_none_Decimal {V} := @%s V.' % dn)
+    DA = number.Decimal.Attributes
+    import decimal
+    if (DA.gt, DA.ge, DA.lt, DA.le) != (decimal.Decimal('-inf'), decimal.Decimal('-inf'), decimal.Decimal('inf'), decimal.Decimal('inf')) or DA.values:
+        raise TranslateError('Decimal: unexpected default range attributes')
     return {'FacetTypes.v': '\n'.join(out) + '\n'}
